@@ -32,7 +32,7 @@ GROUPS = {
     "edns": (["pkg/query_context/context.go", "pkg/server_handler/entry_handler.go", "pkg/dnsutils/msg.go",
               "plugin/executable/ecs_handler/handler.go", "plugin/executable/forward_edns0opt/forwarder.go"], ["C15", "C03", "C05"]),
     "handlerplugins": (["plugin/executable/redirect/redirect.go", "pkg/hosts/hosts.go", "plugin/executable/dual_selector/dual_selector.go"], ["C03", "C12"]),
-    "upstream": (["pkg/upstream/upstream.go", "pkg/upstream/utils.go", "pkg/upstream/bootstrap/bootstrap.go"], ["C18", "C17", "C01"]),
+    "upstream": (["pkg/upstream/upstream.go", "pkg/upstream/utils.go", "pkg/upstream/bootstrap/bootstrap.go"], ["C18", "C17", "C07", "C01"]),
     "transport": ([T + "conn_traditional.go", T + "reuse.go", T + "pipeline.go", T + "conn_lazy_dial.go", T + "utils.go"],
                   ["C09", "C08", "C07", "C01", "C16", "C02"]),
     "doh_doq": ([T + "conn_quic.go", "pkg/upstream/doh/upstream.go"], ["C01"]),
